@@ -46,7 +46,7 @@ def replay(ctx, data, go_cmds):
     common.go_build(go_cmds)
     common.lake_build(['driver'])
     if data.get('kind') == 'corr':
-        n, mism, _ = common.corr(ctx, 'replay', data['go_cmd'], data['go_args'], data['driver_args'], const=data.get('const'))
+        n, mism, _ = common.corr(ctx, 'replay', data['go_cmd'], data['go_args'], data['driver_args'], const=data.get('const'), ok_exit=(0, 1, 3, 66))
         hit = [m for m in mism if m[0] == data['index']] or mism
         if hit:
             print(f'REPLAY reproduces: case #{hit[0][0]} code={hit[0][2][:200]} spec={hit[0][3][:200]}\n{hit[0][1][:500]}')
